@@ -60,7 +60,7 @@ class GlencoeReader(TextToModel):
                     # children.append(child_feature)  # NOTE: may be needed for mandatory in groups
                 else:
                     children.append(child_feature)
-            if feature_type != "FEATURE":  # group
+            if feature_type != "FEATURE" and children:  # group (its mandatory members have relations of their own)
                 if feature_type == "XOR":
                     relation = Relation(feature, children, 1, 1)
                 elif feature_type == "OR":
